@@ -1295,7 +1295,9 @@ def scenario_core(draw):
         i += k
         if draw(st.integers(0, 2)) == 0:
             out.append(draw(st.sampled_from(({"op": "sat", "s": 0, "extra": []}, {"op": "unsat_core", "s": 0, "extra": []},
-                                             {"op": "eval", "s": 0, "e": x, "n": 1, "extra": []}))))
+                                             {"op": "eval", "s": 0, "e": x, "n": 1, "extra": []},
+                                             # a refuted candidate value: what the solver learns from it is not a constraint the caller added
+                                             {"op": "solution", "s": 0, "e": x, "v": draw(st.sampled_from((1, 2, 5, 9, 15))), "v_as_bvv": False, "extra": []}))))
     if draw(st.booleans()):
         out.append(draw(st.sampled_from(({"op": "sat", "s": 0, "extra": []}, {"op": "unsat_core", "s": 0, "extra": []}))))
     n_br = draw(st.integers(0, 2))
